@@ -12,8 +12,11 @@ CHECKS = {
              "Parser.tla agrees with the independent recursive-descent reference meaning of Lang.tla (three-valued: accepted / "
              "rejected / viable prefix, and the denotation on acceptance). Every explored behaviour is then rendered to text "
              "(canonical and seeded varied quoting/white space) and parsed by the real library; return code and the complete "
-             "getter tree are compared with the specification's prediction. Exhaustive within the bound, so any change of the "
-             "16-state machine or the value store that alters the meaning of a short text is caught.",
+             "getter tree are compared with the specification's prediction; the same bytes are also fed through cfg_parse_fp and "
+             "cfg_parse. Exhaustive within the bound, so any change of the 16-state machine or the value store that alters the "
+             "meaning of a short text is caught. Beyond the bound, executions recorded from the real library on random schemas "
+             "with long random texts (grammar-derived, then mutated) are validated line by line against the specification "
+             "(Trace_Conf.tla).",
         note="Bounded (token count, value pool, six hand-built schemas); the text->number conversion is a finite table here (C04 owns it); "
              "trusted: TLC, the renderer (tokens->text), the driver's tree dump via public getters."),
     "C06": dict(
@@ -63,7 +66,8 @@ CHECKS = {
              "action properties on every transition: append keeps the old values (defaults included) as prefix, removal keeps order, "
              "titles stay unique, bad calls fail, successful setters mark the option modified, the pointer ledger balances. Every "
              "transition is replayed (after a shortest path to its pre-state); return value, full tree, modified mark, released "
-             "pointers and heap balance are compared.",
+             "pointers and heap balance are compared, also through the cfg_opt_* forms of the calls. Long random call sequences on "
+             "random schemas are recorded and validated against the specification (Trace_Conf.tla).",
         note="Bounded depth; outcomes the statement leaves open (index beyond the end of a list, indexed write into a list that still holds "
              "pristine defaults, zero-length list set) are 'unspec' in the spec and not compared; annotations / default marker are not compared here (C10 does)."),
     "C10": dict(
